@@ -22,8 +22,8 @@ import common
 from common import run_check
 
 PROP = "C17"
-KEYS = ["a", "b", "c", "d", "e"]
-VALUES = [1, 2, "x", [1, 2], {"k": 1}, 3.5, None, True, "y", 7]
+KEYS = ["a", "b", "c", "d", "e", "f", "g"]
+VALUES = [1, 2, "x", [1, 2], {"k": 1}, 3.5, None, True, "y", 7, 0.5, 1.5, 2.5, 4.5, [], {"k": 2}, {"k": 3}, [3], [4]]
 _counter = [0]
 
 
@@ -31,9 +31,17 @@ def gen_scenario(rng, maxlen):
     n = rng.randint(1, maxlen)
     levels = []
     for j in range(n):
-        ks = rng.sample(KEYS, rng.randint(0, 3))
-        own = {k: rng.randrange(len(VALUES)) for k in ks}
-        levels.append(dict(own=own, staging=rng.choice(["mem", "mem", "disk"]), from_store=rng.random() < 0.5))
+        ks = rng.sample(KEYS, rng.choice([0, 1, 2, 3, 3, 5, 6]))
+        kind = rng.choice([None, None, [10, 11, 12, 13, 5], [4, 15, 16], [3, 14, 17, 18]])   # values of one kind (floats / dicts / lists)
+        own = {k: (rng.choice(kind) if kind else rng.randrange(len(VALUES))) for k in ks}
+        if kind and len(ks) >= 3 and rng.random() < 0.7:
+            own = {k: kind[i % len(kind)] for i, k in enumerate(ks)}                          # pairwise distinct as far as possible
+        staging = rng.choice(["mem", "mem", "memdd", "disk", "disk"])
+        lvl = dict(own=own, staging=staging, from_store=rng.random() < 0.5)
+        if staging == "disk" and ks and rng.random() < 0.6:
+            # keys assigned more than once while staging; the earlier value is often the final value of another key
+            lvl["pre"] = [[rng.choice(ks), rng.choice(list(own.values()))] for _ in range(rng.randint(1, 3))]
+        levels.append(lvl)
     backend = rng.choice(["fs", "fscache", "fscache", "memory"])
     mode = rng.choice(["bottom-up", "top-down"])
     return dict(backend=backend, levels=levels, mode=mode, reret=rng.random() < 0.35)
@@ -43,6 +51,7 @@ def render(sc, modname):
     L = ["from twosigma.memento import memento_function",
          "from twosigma.memento.partition import InMemoryPartition",
          "from twosigma.memento.storage_filesystem import OnDiskPartition",
+         "import collections",
          "import vrec", "", ""]
     for j, lv in enumerate(sc["levels"]):
         L.append('@memento_function(cluster="c17")')
@@ -51,8 +60,13 @@ def render(sc, modname):
         items = ", ".join("%r: %r" % (k, VALUES[v]) for k, v in lv["own"].items())
         if lv["staging"] == "mem":
             L.append("    p = InMemoryPartition({%s})" % items)
+        elif lv["staging"] == "memdd":
+            # built from a defaultdict (as in the library's own documentation example)
+            L.append("    p = InMemoryPartition(collections.defaultdict(list, {%s}))" % items)
         else:
             L.append("    p = OnDiskPartition()")
+            for k, v in lv.get("pre", []):
+                L.append("    p[%r] = %r" % (k, VALUES[v]))
             for k, v in lv["own"].items():
                 L.append("    p[%r] = %r" % (k, VALUES[v]))
         if j > 0:
@@ -281,6 +295,18 @@ def corpus():
         # F20: a read-back partition with inherited keys is returned again
         dict(backend="fs", mode="bottom-up", reret=True, levels=[lv({"a": 0, "b": 1}), lv({"b": 2, "c": 3}, "mem", True)]),
         dict(backend="fscache", mode="bottom-up", reret=True, levels=[lv({"a": 0}), lv({"c": 3}, "disk", True), lv({}, "mem", True)]),
+        # staging on disk: equal values under several keys, one of them assigned again
+        dict(backend="fs", mode="bottom-up", reret=False, levels=[dict(own={"a": 14, "b": 14, "c": 3}, staging="disk", from_store=False,
+                                                                         pre=[["c", 14], ["a", 3]])]),
+        dict(backend="fscache", mode="bottom-up", reret=False, levels=[lv({"a": 0}), dict(own={"b": 14, "c": 14, "d": 17}, staging="disk", from_store=True,
+                                                                                        pre=[["d", 14]])]),
+        # many keys holding distinct values of one kind, loaded on demand while being stored (on-disk staging; returned again)
+        dict(backend="fs", mode="bottom-up", reret=True, levels=[dict(own={"a": 10, "b": 11, "c": 12, "d": 13, "e": 5, "f": 10, "g": 12}, staging="disk", from_store=True)]),
+        dict(backend="fs", mode="bottom-up", reret=True, levels=[dict(own={"a": 4, "b": 15, "c": 16, "d": 4, "e": 15}, staging="disk", from_store=True),
+                                                                 dict(own={"f": 3, "g": 17, "a": 18}, staging="disk", from_store=True)]),
+        # partitions built from a defaultdict, with parent-only keys, with and without memory cache
+        dict(backend="fscache", mode="bottom-up", reret=False, levels=[lv({"a": 3, "b": 17, "c": 18}), dict(own={"a": 14, "d": 3}, staging="memdd", from_store=False)]),
+        dict(backend="fs", mode="top-down", reret=False, levels=[lv({"a": 3, "b": 17}), dict(own={"c": 14}, staging="memdd", from_store=False), lv({"e": 0}, "memdd")]),
     ]
 
 
